@@ -108,7 +108,9 @@ func valFor(s setting, src int, alt int) string {
 	case reflect.Int:
 		return strconv.Itoa(1101*(src+1) + alt)
 	case reflect.String:
-		return []string{"from-env", "from-file", "from-cmd"}[src] + strings.Repeat("x", alt)
+		base := []string{"from-env", "from-file", "from-cmd"}[src]
+		// value shapes that are delicate for one of the three syntaxes (KEY=value, YAML, -flag=value)
+		return base + []string{"", "=with=equals", " with space", ": colon #hash", "/path/site=a1/x.y", "'quoted'", "\"dq\"", "x"}[alt%8]
 	}
 	return ""
 }
@@ -147,7 +149,7 @@ func optsSingle(tier string) mck.Space {
 				nsrc++
 			}
 		}
-		if s.kind != reflect.Bool && asg != 0 || s.kind == reflect.Bool && asg >= 1<<nsrc {
+		if s.kind == reflect.Int && asg != 0 || s.kind == reflect.Bool && asg >= 1<<nsrc || s.kind == reflect.String && nsrc == 0 && asg != 0 {
 			c.Skip()
 			return
 		}
@@ -161,6 +163,9 @@ func optsSingle(tier string) mck.Space {
 				continue
 			}
 			v := valFor(s, b, 0)
+			if s.kind == reflect.String {
+				v = valFor(s, b, asg)
+			}
 			if s.kind == reflect.Bool {
 				v = strconv.FormatBool(asg&(1<<k) != 0)
 			}
